@@ -228,7 +228,7 @@ Theorem area_rollback_spec ar x :
   wff 2 (a_free ar) -> below (a_free ar) (a_end ar) ->
   sorted_from 2 (t_allocated x) -> 2 <= t_end x ->
   a_end ar - t_end x < 2^32 ->
-  (forall id, In id (t_allocated x) -> ~ inl id (fregions (a_free ar))) ->
+  (forall id, In id (t_allocated x) -> id < t_end x -> ~ inl id (fregions (a_free ar))) ->
   let ar' := area_rollback ar x in
   a_end ar' = t_end x /\ wff 2 (a_free ar') /\
   (forall id, inl id (fregions (a_free ar')) <->
@@ -252,7 +252,7 @@ Proof.
     - split; [exact Wf|]. intros id. split; [intros H; split; [exact H | pose proof (Hbelow _ H); lia] | intros [H _]; exact H]. }
   destruct H1 as (Wf1 & Hs1).
   assert (Hd: disjoint_l (fregions f1) (ids_regions alloc)).
-  { intros id Ha Hb. apply Hs1 in Ha as [Ha _]. apply Hiset in Hb. apply Hain in Hb as [Hb _]. exact (Hdis id Hb Ha). }
+  { intros id Ha Hb. apply Hs1 in Ha as [Ha _]. apply Hiset in Hb. apply Hain in Hb as [Hb Hlt]. exact (Hdis id Hb Hlt Ha). }
   destruct (fl_add_regions_spec f1 (ids_regions alloc) 2 Wf1 Wi Hd) as (W2 & Hs2 & _).
   cbn [a_end a_free].
   assert (Hset: forall id, inl id (fregions (fl_add_regions f1 (ids_regions alloc))) <->
